@@ -171,6 +171,7 @@ def gen_jobs(ctx):
         jobs.append(("ctx%d" % i, gramgen.ctx_nullable_grammar(rng)[1], None))
         jobs.append(("chain%d" % i, gramgen.unit_chain_grammar(rng)[1], None))
         jobs.append(("fchain%d" % i, gramgen.follow_chain_grammar(rng)[1], None))
+        jobs.append(("epschain%d" % i, gramgen.epsilon_chain_grammar(rng)[1], None))
     n = 400 if quick else 6000
     for i in range(n):
         big = i % 3 == 0
